@@ -2,8 +2,12 @@ package main
 
 import (
 	"fmt"
+	"go/constant"
 	"go/types"
+	"os"
+	"path/filepath"
 	"sort"
+	"strconv"
 	"strings"
 
 	"golang.org/x/tools/go/ssa"
@@ -15,6 +19,7 @@ func init() {
 	scans["write-results-unused"] = scanWriteResultsUnused
 	scans["convert-shape"] = scanConvertShape
 	scans["sort-by-less"] = scanSortByLess
+	scans["literal-vocabulary"] = scanLiteralVocabulary
 }
 
 func scanObl(name string, ok bool, why string) *Obl {
@@ -334,4 +339,104 @@ func scanSortByLess(P *Program) []*Obl {
 		return []*Obl{scanObl("sort-by-less", false, "sort.Slice is not called with Sort's own comparison closure")}
 	}
 	return []*Obl{scanObl("sort-by-less (Sort = sort.Slice(s, Sort$1))", true, "")}
+}
+
+
+// scanLiteralVocabulary: every compile-time constant handed to the output writer by the core renderer and the
+// extension renderers (WriteString / WriteByte / WriteRune constants, fmt.Fprintf formats) belongs to the fixed
+// vocabulary props/C03.vocab.txt; WriteByte / WriteRune are only ever called with constants.
+func scanLiteralVocabulary(P *Program) []*Obl {
+	vocab := map[string]bool{}
+	if b, err := os.ReadFile(filepath.Join(verifRoot(), "props", "C03.vocab.txt")); err == nil {
+		for _, ln := range strings.Split(string(b), "\n") {
+			if ln == "" || strings.HasPrefix(ln, "#") {
+				continue
+			}
+			if s, err := strconv.Unquote(ln); err == nil {
+				vocab[s] = true
+			}
+		}
+	}
+	var out []*Obl
+	seen := map[string]bool{}
+	n := 0
+	for _, fn := range P.allFuncs {
+		pk := fnDisplayName(fn)
+		if !(strings.HasPrefix(pk, "html.") || strings.HasPrefix(pk, "extension.")) {
+			continue
+		}
+		for _, b := range fn.Blocks {
+			for _, in := range b.Instrs {
+				c, ok := in.(*ssa.Call)
+				if !ok {
+					continue
+				}
+				cc := c.Common()
+				var lit *ssa.Const
+				what := ""
+				if cc.IsInvoke() && (typeName(cc.Value.Type()) == "util.BufWriter" || typeName(cc.Value.Type()) == "io.Writer") {
+					switch cc.Method.Name() {
+					case "WriteString", "WriteByte", "WriteRune":
+						what = cc.Method.Name()
+						if k, isC := cc.Args[0].(*ssa.Const); isC {
+							lit = k
+						} else if lk, isL := cc.Args[0].(*ssa.Lookup); isL && isConstString(lk.X) != nil {
+							lit = isConstString(lk.X) // one byte of a constant string: the whole constant must be vocabulary
+						} else if ix, isI := cc.Args[0].(*ssa.Index); isI && isConstString(ix.X) != nil {
+							lit = isConstString(ix.X)
+						} else if cc.Method.Name() != "WriteString" {
+							if strings.HasPrefix(pk, "html.escapeRune") {
+								continue // the one dynamic rune: its precondition is an SMT obligation
+							}
+							out = append(out, scanObl("literal-vocabulary:"+pk+":"+what+" with a non-constant argument", false,
+								fmt.Sprintf("%s calls %s with a computed value at %s", pk, what, P.fset.Position(c.Pos()))))
+							continue
+						} else {
+							continue // dynamic strings are covered by the SMT precondition (literal memory or inert)
+						}
+					default:
+						continue
+					}
+				} else if f, isF := cc.Value.(*ssa.Function); isF && f.Pkg != nil && f.Pkg.Pkg.Path() == "fmt" && (f.Name() == "Fprintf" || f.Name() == "Fprint") {
+					what = "fmt." + f.Name()
+					if len(cc.Args) > 1 {
+						if k, isC := cc.Args[1].(*ssa.Const); isC {
+							lit = k
+						}
+					}
+					if lit == nil {
+						out = append(out, scanObl("literal-vocabulary:"+pk+":"+what+" with a non-constant format", false, P.fset.Position(c.Pos()).String()))
+						continue
+					}
+				} else {
+					continue
+				}
+				n++
+				var s string
+				if lit.Value == nil {
+					continue
+				}
+				if lit.Value.Kind() == constant.String {
+					s = constant.StringVal(lit.Value)
+				} else if v, ok := constant.Int64Val(constant.ToInt(lit.Value)); ok {
+					s = string(rune(v))
+				}
+				if !vocab[s] && !seen[s] {
+					seen[s] = true
+					out = append(out, scanObl("literal-vocabulary:"+strconv.Quote(s), false,
+						fmt.Sprintf("%s writes the literal %s (via %s at %s), which is not in props/C03.vocab.txt", pk, strconv.Quote(s), what, P.fset.Position(c.Pos()))))
+				}
+			}
+		}
+	}
+	out = append(out, scanObl(fmt.Sprintf("literal-vocabulary (%d constant writes, %d vocabulary entries)", n, len(vocab)), true, ""))
+	return out
+}
+
+
+func isConstString(v ssa.Value) *ssa.Const {
+	if k, ok := v.(*ssa.Const); ok && k.Value != nil && k.Value.Kind() == constant.String {
+		return k
+	}
+	return nil
 }
